@@ -65,16 +65,19 @@ def Op.typed (kinds : Array GKind) : Op → Bool
   | .paywr _ _ => true
 
 /-- the first thread whose program mentions guard variable `v` -/
-def ownerOf (progs : List (Array Op)) (v : Nat) : Option Nat :=
+def ownerOf (progs : List (List Op)) (v : Nat) : Option Nat :=
   progs.findIdx? fun p => p.any fun op => op.vars.contains v
+
+/-- the programs of all threads, as lists -/
+def progsOf (c : Client) : List (List Op) := c.threads.toList.map fun th => th.prog.toList
 
 /-- executable well-formedness: every instruction is well typed, names existing variables and locks, and every
     guard variable is mentioned by one thread only -/
 def wfB (c : Client) : Bool :=
-  c.kinds.size == c.vars.size && 0 < c.locks.size &&
+  c.kinds.size == c.vars.size && decide (0 < c.locks.size) &&
   (List.range c.threads.size).all fun t =>
-    (c.threads.getD t {}).prog.all fun op =>
-      op.typed c.kinds && op.vars.all (fun v => v < c.vars.size && ownerOf (c.threads.toList.map (·.prog)) v == some t) &&
-      op.locks.all (· < c.locks.size)
+    ((progsOf c).getD t []).all fun op =>
+      op.typed c.kinds && op.vars.all (fun v => decide (v < c.vars.size) && ownerOf (progsOf c) v == some t) &&
+      op.locks.all (fun lk => decide (lk < c.locks.size))
 
 end CppUtil.WClient
